@@ -110,6 +110,18 @@ def p_from_lines(t):
         r3 = _d822.groups_t(deb822.get_paragraphs_as_field_groups_from_lines(tuple(lines)))
         k = (7, 1000, len(lines) + 3, 1)[len(t) % 4]
         r4 = _d822.groups_offset(t, k)
+        r5 = None
+        if '\r' not in t and t.strip():
+            # the file route (a UTF-8 file holding the text; a file is read with universal newlines)
+            import os
+            import tempfile
+            fd, path = tempfile.mkstemp(suffix='-copyright')
+            try:
+                with os.fdopen(fd, 'w', encoding='utf-8', newline='') as fh:
+                    fh.write(t)
+                r5 = _d822.groups_t(deb822.get_paragraphs_as_field_groups_from_file(path))
+            finally:
+                os.unlink(path)
     except Exception as e:  # noqa
         return 'raises %s' % type(e).__name__
     if r1 != want:
@@ -130,6 +142,8 @@ def p_from_lines(t):
         return 'raises %s' % type(e).__name__
     if again != want:
         return 'after a caller changed an earlier result in place, the text parses to %r, before to %r' % (again, want)
+    if r5 is not None and r5 != want:
+        return 'read from a file the text parses to %r, as a text to %r' % (r5, want)
     if r4 != r1:
         return 'the same lines numbered from %d parse to %r, numbered from 1 to %r' % (k + 1, r4, r1)
     if r2 != r1 or r3 != r1:
@@ -210,6 +224,11 @@ def run(ctx):
     # beyond 1 MiB, with one kind of line end, blank line, separator or marker placed exactly on every multiple of 4096
     # characters (hence on every multiple of 64 KiB and 1 MiB as well)
     big += [G.aligned_text(rng, 2200000 if f in ('crlf-straddle', 'line-start') else 1100000, f) for f in ('crlf-straddle', 'line-start', 'blank-start', 'sep-straddle', 'marker-start')]
+    # texts whose first 10 to 70 KB end their lines one way and the rest another way (LF then CR LF, LF then lone CR, ...)
+    for first, later, n in (('\n', '\r\n', 400), ('\n', '\r', 400), ('\r\n', '\n', 400), ('\r', '\n', 400), ('\n', '\r\n', 3000), ('\n', '\r', 3000)):
+        head = G.big_text(rng, n, 2, 0, first)
+        tail = G.big_text(rng, 300, 2, 0, later)
+        big.append(head + first + tail)
     fails += ctx.prop('prop:lines:large', big, p_lines)
     kinds = {}
     for t in texts[:5000]:
